@@ -1,4 +1,6 @@
-"""setup_cmd: nothing has to be built (pure Python); verify that the tool chain is usable."""
+"""setup_cmd: nothing has to be built (pure Python).  Verifies that the tool chain is usable
+and that the reference models pass their own sanity checks (textbook answers that do not
+involve the implementation)."""
 import json
 import os
 import sys
@@ -8,18 +10,61 @@ VERIF = os.path.dirname(os.path.dirname(os.path.abspath(__file__)))
 
 def main():
     sys.path.insert(0, VERIF)
-    from mc import impl  # noqa: F401  (asserts that yldprolog comes from /repo/src)
-    from mc.refprolog import Ref
-    from mc.terms import F, A, V, C
+    from mc import impl  # noqa: F401  (asserts that yldprolog comes from the examined tree)
+    from mc.refprolog import Ref, unify, sto
+    from mc.terms import F, A, V, C, L, NIL, call, conj, CUT, FAIL, TRUE
+    from mc import refgrammar as rg
+
+    # --- RefProlog: textbook behaviour
+    X, Y, Z = V('X'), V('Y'), V('Z')
     r = Ref()
-    r.consult([(F('p', C(1)), None), (F('p', C(2)), None)])
-    ans, st = r.query(F('p', V('X')), [V('X')])
-    assert st == 'complete' and len(ans) == 2
+    r.consult([(F('m', C(1)), None), (F('m', C(2)), None),
+               (F('a', X), conj(call(F('m', X)), CUT)), (F('a', C(9)), None),
+               (F('b', X, Y), conj(call(F('m', X)), (';', ('->', call(F('=', X, C(1))), call(F('=', Y, A('one')))), call(F('=', Y, A('other')))))),
+               (F('n', X), ('\\+', call(F('m', X)))),
+               (F('app', NIL, X, X), None), (F('app', L([V('H')], V('T')), X, L([V('H')], V('R'))), call(F('app', V('T'), X, V('R'))))])
+    q = lambda g, o: r.query(g, o)[0]  # noqa: E731
+    assert q(F('a', V('Q')), [V('Q')]) == [(('c', 1),)]
+    assert q(F('b', V('Q'), V('W')), [V('Q'), V('W')]) == [(('c', 1), ('a', 'one')), (('c', 2), ('a', 'other'))]
+    assert q(F('n', C(3)), []) == [()] and q(F('n', C(1)), []) == []
+    assert len(q(F('app', V('Q'), V('W'), L([C(1), C(2), C(3)])), [V('Q'), V('W')])) == 4
+    assert q(F('findall', X, F('m', X), V('Lq')), [V('Lq')]) == [(('f', '.', (('c', 1), ('f', '.', (('c', 2), ('a', '[]'))))),)]
+    # logical update view: the drain loop visits every fact once, the counter loop terminates
+    r2 = Ref()
+    for t in (A('a'), A('b')):
+        r2.assert_fact(F('p', t))
+    r2.consult([(A('drain'), conj(call(F('p', X)), call(F('retract', F('p', X))), FAIL)), (A('drain'), None),
+                (F('t', X), conj(call(F('assertz', F('p', C(1)))), call(F('p', X)), call(F('assertz', F('p', C(2))))))])
+    assert r2.query(A('drain'), [])[0] == [()] and r2.facts(('p', 1)) == []
+    assert [a[0] for a in r2.query(F('t', V('Q')), [V('Q')])[0]] == [('c', 1)]
+    # STO detection
+    assert sto(F('f', X, X), F('f', Y, F('g', Y)), {}) and not sto(F('f', X, A('a')), F('f', A('b'), X), {})
+    assert unify(F('f', X), F('f', A('a'), A('b')), {}) is None
+
+    # --- RefGrammar: literal CFG and fast recogniser agree on every sentence of <= 5 tokens
+    #     and all their single-token insertions/deletions/substitutions
+    n = 0
+    for ln in range(2, 6):
+        for s in rg.sentences('clauseordirective', ln):
+            cands = {s}
+            for i in range(len(s)):
+                cands.add(s[:i] + s[i + 1:])
+                for k in rg.TOKEN_KINDS:
+                    cands.add(s[:i] + (k,) + s[i:])
+                    cands.add(s[:i] + (k,) + s[i + 1:])
+            for c in cands:
+                if not c or c[-1] != '.' or '.' in c[:-1]:
+                    continue
+                n += 1
+                assert rg.derives('clauseordirective', c) == rg.fast_clause(c), c
+    assert rg.analyse("foo('a\\'b', X) :- \\+ bar, X \\== 1. % c\n").heads == [('foo', 2)]
+    assert not rg.analyse('foo(a). ) garbage').accepted and not rg.analyse('a(X) :- b(X),, c(X).').accepted
+
     with open(os.path.join(VERIF, 'MANIFEST.json')) as f:
         man = json.load(f)
-    assert man['version'] == 1
+    assert man['version'] == 1 and len(man['checks']) + len(man.get('not_applicable', [])) == 20
     os.makedirs(os.path.join(VERIF, 'evidence'), exist_ok=True)
-    print('selftest ok: yldprolog from', impl.SRC)
+    print('selftest ok: yldprolog from %s; reference models sane; recognisers agree on %d token strings' % (impl.SRC, n))
 
 
 if __name__ == '__main__':
